@@ -655,6 +655,18 @@ fn shapes_g<F: Float>(int: &[u8], frac: &[u8], exp: i32, shape: u32, salt: u64) 
             let singles: Vec<[u8; 1]> = frac.iter().map(|&c| [c]).collect();
             ml::parse_float::<F, _, _>(ci.iter().flat_map(|c| c.iter()), singles.iter().map(|a| &a[0]), exp).to_bits()
         }
+        13 => {
+            // the cursor lives behind a pointer: Box<slice::Iter> (Clone is a deep copy; a bitwise copy of the
+            // iterator would share the cursor)
+            ml::parse_float::<F, _, _>(Box::new(int.iter()), Box::new(frac.iter()), exp).to_bits()
+        }
+        14 => {
+            // a rope-like iterator whose position is kept in a heap-allocated vector of cursors
+            let (ci, cf) = (chunks_of(int, salt), chunks_of(frac, salt >> 17));
+            let i = RopeIter { chunks: &ci, pos: vec![0usize, 0usize] };
+            let f = RopeIter { chunks: &cf, pos: vec![0usize, 0usize] };
+            ml::parse_float::<F, _, _>(i, f, exp).to_bits()
+        }
         11 => {
             // a wide iterator type: a chain of six slice iterators (well over 64 bytes), cut at generated points
             let cut = |s: &[u8], k: u64| -> [usize; 5] {
@@ -685,6 +697,29 @@ fn shapes_g<F: Float>(int: &[u8], frac: &[u8], exp: i32, shape: u32, salt: u64) 
                 ml::parse_float::<F, _, _>(int.iter(), frac.iter(), exp).to_bits()
             }
         }
+    }
+}
+
+/// Chunk-list iterator with its two cursors (chunk index, byte index) in a Vec.
+#[derive(Clone)]
+struct RopeIter<'a> {
+    chunks: &'a [Vec<u8>],
+    pos: Vec<usize>,
+}
+
+impl<'a> Iterator for RopeIter<'a> {
+    type Item = &'a u8;
+    fn next(&mut self) -> Option<&'a u8> {
+        while self.pos[0] < self.chunks.len() {
+            let c = &self.chunks[self.pos[0]];
+            if self.pos[1] < c.len() {
+                self.pos[1] += 1;
+                return Some(&c[self.pos[1] - 1]);
+            }
+            self.pos[0] += 1;
+            self.pos[1] = 0;
+        }
+        None
     }
 }
 
